@@ -20,9 +20,6 @@ package labelpatch
 //@ ensures shape: len(result) == len(batches) && fresh(result)
 //@ ensures first: result[0] == plannedAt(batches, workloadReplicas, 0)
 //@ ensures increments: forall i :: 1 <= i && i <= currentBatch ==> result[i] == plannedAt(batches, workloadReplicas, i) - plannedAt(batches, workloadReplicas, i - 1)
-//@ ensures framed: unchangedOutside()
-//@ loop 1 invariant framed: unchangedOutside()
-//@ loop 2 invariant framed: unchangedOutside()
 //@ ensures later_batches_get_nothing: forall i :: currentBatch < i && i < len(batches) ==> result[i] == 0
 //@ loop 1 invariant 0 <= i && i <= currentBatch + 1 && len(res) == len(batches) && fresh(res)
 //@ loop 1 invariant forall j :: 0 <= j && j < i ==> res[j] == plannedAt(batches, workloadReplicas, j)
@@ -31,6 +28,9 @@ package labelpatch
 //@ loop 2 invariant forall j :: 0 <= j && j <= i$2 ==> res[j] == plannedAt(batches, workloadReplicas, j)
 //@ loop 2 invariant forall j :: i$2 < j && j <= currentBatch ==> res[j] == plannedAt(batches, workloadReplicas, j) - plannedAt(batches, workloadReplicas, j - 1)
 //@ loop 2 invariant forall j :: currentBatch < j && j < len(batches) ==> res[j] == 0
+//@ ensures framed: unchangedOutside()
+//@ loop 1 invariant framed: unchangedOutside()
+//@ loop 2 invariant framed: unchangedOutside()
 
 // patchPodBatchLabel: whatever labels the pods carry (stale batch ids, hand-written values), the per-batch counters are
 // only indexed inside 1..len(batches); a pod is taken from the list of unlabelled pods only while that list is non-empty.
